@@ -8,7 +8,8 @@ From CGV Require Import Base.PyBase Base.PyVal Base.NxGraph Gen.HydroGen Resolve
 From CGV Require Hydro.Hydrogens Hydro.Squash.
 From CGV Require Import Compose.GraphAdj Compose.CutModel Compose.CutPos Compose.CutTables Compose.CutDisc Compose.CutSkeleton Compose.CutWf
      Compose.CutHydrogens Compose.ComposeFlat Compose.CutSpecCheck Compose.RebuildWf Compose.CutSorted Compose.CutRunCheck Compose.CutRunSound Compose.SortIdentity Compose.LayeredStep Compose.Levels Compose.PartPerm Compose.Completion Compose.RelabelEdges Compose.CutIso Compose.OrderIndep Compose.ReturnedIso Compose.LevelsIso
-     Compose.Transcript Compose.CompletionCar Compose.CutIsoCar Compose.ReturnedIsoCar.
+     Compose.Transcript Compose.CompletionCar Compose.CutIsoCar Compose.ReturnedIsoCar
+     Compose.LevelsRunCheck Compose.LevelsRunSound.
 Import ListNotations.
 Open Scope Z_scope.
 
@@ -145,6 +146,26 @@ Proof. exact transcript_ok_id. Qed.
 Theorem C01_corr_orders_id : forall C1 C2 m1 m2, wf_cut C1 -> pperm C1 C2 -> skeleton C1 true m1 -> skeleton C2 true m2 -> corr_orders C1 C2 m1 m2.
 Proof. exact corr_orders_id. Qed.
 
+(** ---- C06 per-run tie (LevelsRunCheck.v / LevelsRunSound.v) ---- *)
+Theorem C06_coarse_of_test_sound : forall C C', wf_cut C' -> coarse_ofb C C' = true -> coarse_of C C'.
+Proof. exact coarse_ofb_sound. Qed.
+Theorem C06_raw_chain_test_sound : forall Cs U, wf_cut U -> raw_chainb U Cs = true -> raw_chain U Cs.
+Proof. exact raw_chainb_sound. Qed.
+(** a judged hierarchy run with verdict 0: the hypotheses of compose_levels hold of the implementation's dictionaries and
+    base graph, the driver machine returns the skeletons at every coarse level, and the implementation's own returned
+    graphs (and its bonded all-atom graph) are skeletons of the same cuts *)
+Theorem C06_run_check_sound : forall r, lrun_judged r = true -> lrun_fail r = 0%nat ->
+  let U := lr_U r in let Cs := lr_Cs r in
+  exists fdU rest, lr_fds r = fdU :: rest /\
+    wf_cut U /\ raw_chain U Cs /\ templates_ok U fdU /\ is_base U (next_meta (lr_base r)) /\
+    Forall2 templates_ok Cs (firstn (length Cs) rest) /\
+    (exists st' outs, lrun_model r = Ok (st', outs) /\ Forall2 level_ok (U :: effs U Cs) outs) /\
+    (forall E g, In (E, g) (combine (U :: effs U Cs) (lr_outs r)) -> skeleton E false g /\ adj_nodup g) /\
+    (forall C0, lr_C0 r = Some C0 -> exists fd0, nth_error rest (length Cs) = Some fd0 /\
+        wf_cut C0 /\ coarse_of C0 (last Cs U) /\ templates_ok C0 fd0 /\
+        forall g, lr_m2 r = Some g -> skeleton (perm_cut C0 (last_eff U Cs)) true g).
+Proof. exact levels_run_check_sound. Qed.
+
 Print Assumptions C01_cut_bonding_skeleton.
 Print Assumptions C01_cut_tables_dedicated.
 Print Assumptions C01_cut_tables_disjoint.
@@ -182,3 +203,5 @@ Print Assumptions C01_base_order_returned_car.
 Print Assumptions C06_layered_flat_resolve_iso_car.
 Print Assumptions C06_compose_levels_resolve_iso_car.
 Print Assumptions C01_corr_orders_id.
+Print Assumptions C06_run_check_sound.
+Print Assumptions C06_coarse_of_test_sound.
